@@ -107,6 +107,136 @@ fn getters(d: &Dict, key: &str) -> Vec<(&'static str, &'static str, Option<Value
     ]
 }
 
+
+/// Every public way of building a value of this kind from the same payload gives the same value:
+/// `From` / `Into` impls, `make` / `make_*` constructors, `FromStr`, `FromIterator`, the `dict!`
+/// macro, `Default` — compared component-wise with the value built by the harness.
+fn construction_paths(v: &V, lv: &Value) -> Verdict {
+    use std::str::FromStr;
+    let mut alts: Vec<(&'static str, Value)> = vec![];
+    match (v, lv) {
+        (V::Null, _) => alts.push(("Value::default", Value::default())),
+        (V::Marker, _) => alts.extend([("make_marker", Value::make_marker()), ("From<Marker>", Value::from(Marker))]),
+        (V::Na, _) => alts.extend([("make_na", Value::make_na()), ("From<Na>", Value::from(Na))]),
+        (V::Remove, _) => alts.extend([("make_remove", Value::make_remove()), ("From<Remove>", Value::from(Remove))]),
+        (V::Bool(b), _) => {
+            alts.extend([("From<bool>", Value::from(*b)), ("From<Bool>", Value::from(Bool::from(*b))), ("make_bool", Value::make_bool(*b)), ("make_true/false", if *b { Value::make_true() } else { Value::make_false() })]);
+            if bool::from(Bool::from(*b)) != *b {
+                return Err(("construction:Bool->bool".into(), format!("{b}")));
+            }
+        }
+        (V::Num(x, None), _) => {
+            alts.extend([("From<f64>", Value::from(*x)), ("Number::from(f64)", Value::from(Number::from(*x))), ("Number::make", Value::from(Number::make(*x))), ("make_number", Value::make_number(*x))]);
+            if x.fract() == 0.0 && x.abs() < 2e9 && !(*x == 0.0 && x.is_sign_negative()) {
+                alts.extend([("From<i32>", Value::from(*x as i32)), ("Number::from(i32)", Value::from(Number::from(*x as i32))), ("make_int", Value::make_int(*x as i64))]);
+            }
+        }
+        (V::Num(x, Some(_)), Value::Number(n)) => {
+            if let Some(u) = n.unit {
+                alts.extend([("make_number_unit", Value::make_number_unit(*x, u)), ("Number::make_with_unit", Value::from(Number::make_with_unit(*x, u)))]);
+            }
+        }
+        (V::Str(t), _) => alts.extend([("From<&str>", Value::from(t.as_str())), ("Str::from", Value::from(Str::from(t.as_str()))), ("Str::make", Value::from(Str::make(t))), ("make_str", Value::make_str(t))]),
+        (V::Uri(t), _) => alts.extend([("Uri::from", Value::from(Uri::from(t.as_str()))), ("Uri::make", Value::from(Uri::make(t))), ("make_uri", Value::make_uri(t))]),
+        (V::Sym(t), _) => alts.extend([("Symbol::from", Value::from(Symbol::from(t.as_str()))), ("Symbol::make", Value::from(Symbol::make(t))), ("make_symbol", Value::make_symbol(t))]),
+        (V::Ref(id, None), _) => alts.extend([("Ref::from", Value::from(Ref::from(id.as_str()))), ("Ref::make", Value::from(Ref::make(id, None))), ("make_ref", Value::make_ref(id))]),
+        (V::Ref(id, Some(d)), _) => alts.extend([("Ref::make(dis)", Value::from(Ref::make(id, Some(d)))), ("make_ref_with_dis", Value::make_ref_with_dis(id, d))]),
+        (V::XStr(t, x), _) => alts.extend([("XStr::make", Value::from(XStr::make(t, x))), ("make_xstr_from", Value::make_xstr_from(t, x)), ("make_xstr", Value::make_xstr(XStr::make(t, x)))]),
+        (V::Coord(a, b), _) => alts.extend([("Coord::make", Value::from(Coord::make(*a, *b))), ("make_coord", Value::make_coord(Coord::make(*a, *b))), ("make_coord_from", Value::make_coord_from(*a, *b))]),
+        (V::Date(y, m, d), Value::Date(ld)) => {
+            match Date::from_ymd(*y, *m, *d) {
+                Ok(x) => alts.extend([("Date::from_ymd", Value::from(x)), ("make_date", Value::make_date(x))]),
+                Err(e) => return Err(("construction:Date::from_ymd".into(), format!("{y}-{m}-{d}: {e}"))),
+            }
+            if (0..=9999).contains(y) {
+                match Date::from_str(&format!("{y:04}-{m:02}-{d:02}")) {
+                    Ok(x) => alts.push(("Date::from_str", Value::from(x))),
+                    Err(e) => return Err(("construction:Date::from_str".into(), format!("{y:04}-{m:02}-{d:02}: {e}"))),
+                }
+            }
+            alts.push(("Date::from(NaiveDate)", Value::from(Date::from(**ld))));
+        }
+        (V::Time(h, m, sec, n), Value::Time(lt)) => {
+            if *n == 0 {
+                match Time::from_hms(*h, *m, *sec) {
+                    Ok(x) => alts.extend([("Time::from_hms", Value::from(x)), ("make_time", Value::make_time(x))]),
+                    Err(e) => return Err(("construction:Time::from_hms".into(), format!("{h}:{m}:{sec}: {e}"))),
+                }
+            }
+            if n % 1_000_000 == 0 && *n < 1_000_000_000 {
+                match Time::from_hms_milli(*h, *m, *sec, n / 1_000_000) {
+                    Ok(x) => alts.push(("Time::from_hms_milli", Value::from(x))),
+                    Err(e) => return Err(("construction:Time::from_hms_milli".into(), format!("{h}:{m}:{sec}.{n}: {e}"))),
+                }
+            }
+            if *n < 1_000_000_000 {
+                let text = if *n == 0 { format!("{h:02}:{m:02}:{sec:02}") } else { format!("{h:02}:{m:02}:{sec:02}.{n:09}") };
+                match Time::from_str(&text) {
+                    Ok(x) => alts.push(("Time::from_str", Value::from(x))),
+                    Err(e) => return Err(("construction:Time::from_str".into(), format!("{text}: {e}"))),
+                }
+            }
+            alts.push(("Time::from(NaiveTime)", Value::from(Time::from(**lt))));
+        }
+        (V::DateTime(dt), Value::DateTime(ld)) => {
+            alts.push(("make_datetime", Value::make_datetime(ld.clone())));
+            alts.push(("DateTime::from(DateTime<Tz>)", Value::from(DateTime::from(**ld))));
+            if dt.tz == "UTC" {
+                let utc = ld.with_timezone(&chrono::Utc);
+                alts.push(("From<DateTime<Utc>> for Value", Value::from(utc)));
+                alts.push(("DateTime::from(DateTime<Utc>)", Value::from(DateTime::from(utc))));
+                if dt.nanos < 1_000_000_000 {
+                    let text = utc.to_rfc3339_opts(chrono::SecondsFormat::Nanos, true);
+                    match (DateTime::from_str(&text), Value::make_datetime_from_iso(&text), DateTime::parse_from_rfc3339(&text)) {
+                        (Ok(a), Ok(b), Ok(c)) => alts.extend([("DateTime::from_str", Value::from(a)), ("make_datetime_from_iso", b), ("parse_from_rfc3339", Value::from(c))]),
+                        other => return Err(("construction:DateTime-from-text".into(), format!("{text}: {other:?}"))),
+                    }
+                }
+            }
+        }
+        (V::List(_), Value::List(l)) => alts.extend([("From<List>", Value::from(l.clone())), ("make_list", Value::make_list(l.clone())), ("collect", Value::from(l.iter().cloned().collect::<List>()))]),
+        (V::Dict(_), Value::Dict(d)) => {
+            let mut by_insert = Dict::new();
+            for (k, x) in d.iter().rev() {
+                by_insert.insert(k.clone(), x.clone());
+            }
+            let mut by_extend = Dict::default();
+            by_extend.extend(d.iter().map(|(k, x)| (k.clone(), x.clone())));
+            let map: std::collections::BTreeMap<String, Value> = d.iter().map(|(k, x)| (k.clone(), x.clone())).collect();
+            alts.extend([
+                ("FromIterator", Value::from(d.iter().map(|(k, x)| (k.clone(), x.clone())).collect::<Dict>())),
+                ("FromIterator(reversed)", Value::from(d.iter().rev().map(|(k, x)| (k.clone(), x.clone())).collect::<Dict>())),
+                ("Dict::new+insert", Value::from(by_insert)),
+                ("Dict::default+extend", Value::from(by_extend)),
+                ("From<BTreeMap> for Dict", Value::from(Dict::from(map.clone()))),
+                ("From<BTreeMap> for Value", Value::from(map)),
+                ("make_dict", Value::make_dict(d.clone())),
+            ]);
+            if d.len() == 2 {
+                let mut it = d.iter();
+                let (a, b) = (it.next().unwrap(), it.next().unwrap());
+                alts.push(("dict!", Value::from(libhaystack::dict! { b.0.as_str() => b.1.clone(), a.0.as_str() => a.1.clone() })));
+            }
+        }
+        (V::Grid(_), Value::Grid(g)) => {
+            alts.extend([("From<Grid>", Value::from(g.clone())), ("make_grid", Value::make_grid(g.clone()))]);
+            let e = Grid::make_empty();
+            let dflt = Grid::default();
+            if !e.is_empty() || e.len() != 0 || e.is_err() || !dflt.is_empty() || dflt.len() != 0 || dflt.is_err() {
+                return Err(("construction:Grid::default".into(), format!("make_empty {e:?} vs default {dflt:?}")));
+            }
+        }
+        _ => {}
+    }
+    for (name, alt) in alts {
+        same(v, &from_lib(&alt)).map_err(|d| (format!("construction:{name}"), d))?;
+        if &alt != lv && format!("{lv:?}") == format!("{alt:?}") && !format!("{lv:?}").contains("NaN") {
+            return Err((format!("construction-eq:{name}"), format!("{alt:?} != {lv:?}")));
+        }
+    }
+    Ok(())
+}
+
 fn check_value_kind(v: &V) -> Verdict {
     let lv = to_lib(v);
     let want = v.kind_name();
@@ -128,6 +258,7 @@ fn check_value_kind(v: &V) -> Verdict {
             (false, None) => {}
         }
     }
+    construction_paths(v, &lv)?;
     // typed dict getters, key present with this kind / absent
     let mut m = std::collections::BTreeMap::new();
     m.insert("k".to_string(), lv.clone());
@@ -143,6 +274,35 @@ fn check_value_kind(v: &V) -> Verdict {
     for (name, _t, got) in getters(&d, "absent") {
         if got.is_some() {
             return Err((format!("getter:{name}"), format!("{name} returns Some for an absent key")));
+        }
+    }
+    // the accessors without a key: id() / safe_id() read `id`, ts() reads `mod`
+    {
+        let mut m = std::collections::BTreeMap::new();
+        m.insert("id".to_string(), lv.clone());
+        m.insert("mod".to_string(), lv.clone());
+        let d2 = Dict::from(m);
+        let as_v = |r: Option<Value>| r.map(|x| from_lib(&x));
+        let id = as_v(d2.id().map(|r| Value::from(r.clone())));
+        let ts = as_v(d2.ts().map(|t| Value::from(*t)));
+        let safe = from_lib(&Value::from(d2.safe_id()));
+        match (want == "ref", id) {
+            (true, Some(back)) => same(v, &back).map_err(|d| ("getter-payload:id".to_string(), d))?,
+            (false, None) => {}
+            (w, got) => return Err(("getter:id".into(), format!("id() on a {want} `id` tag: expected Some = {w}, got {got:?}"))),
+        }
+        if want == "ref" {
+            same(v, &safe).map_err(|d| ("getter-payload:safe_id".to_string(), d))?;
+        } else {
+            same(&from_lib(&Value::from(Ref::default())), &safe).map_err(|d| ("getter:safe_id".to_string(), format!("safe_id() on a {want} `id` tag is not the default ref: {d}")))?;
+        }
+        match (want == "dateTime", ts) {
+            (true, Some(back)) => same(v, &back).map_err(|d| ("getter-payload:ts".to_string(), d))?,
+            (false, None) => {}
+            (w, got) => return Err(("getter:ts".into(), format!("ts() on a {want} `mod` tag: expected Some = {w}, got {got:?}"))),
+        }
+        if Dict::default().id().is_some() || Dict::default().ts().is_some() {
+            return Err(("getter:id".into(), "id()/ts() on an empty dict".into()));
         }
     }
     for (name, target, got) in [("has_marker", "marker", d.has_marker("k")), ("has_na", "na", d.has_na("k")), ("has_remove", "remove", d.has_remove("k"))] {
@@ -325,7 +485,7 @@ fn check_grid_build(recs: &[Tags]) -> Verdict {
 
 pub fn run(tier: Tier) -> i32 {
     let mut run = Run::new("C19", tier, "exploration");
-    run.rule = "every value of Σ and U: the 18 predicates, HaystackKind::from, all 20 typed TryFrom<&Value> conversions, the 14 typed dict getters + 3 has_* (key present with that value / absent); all 256 u8 codes and all 18 names plus every near-miss name; every list of <= 4 (quick 3) records over 19 records (every key set over {a,b,c,d} + mixed-case names) through the three grid constructors, and records of every width 1..72, 100, 127..129, 255..257 in six list shapes (same record twice, one tag fewer then one more, overlapping halves, an empty record in the middle, even/odd/all, narrow-wide-narrow), and lists of every length 1..72, 100, 127..129, 255..257, 1000 in four shapes (columns first seen in the last records and sorting before / between / after the known ones, columns discovered in descending order, the widest record in the middle, a rotating key set); non-trivial = distinct value / name / record list".into();
+    run.rule = "every value of Σ and U: the 18 predicates, HaystackKind::from, all 20 typed TryFrom<&Value> conversions, the 14 typed dict getters + 3 has_* + id() / safe_id() / ts() (key present with that value / absent), and every other public way of building the same value (From / Into impls, make / make_* constructors, from_ymd / from_hms(_milli), FromStr for Date / Time / DateTime, make_datetime_from_iso, From<chrono types>, Dict via FromIterator in both orders / new+insert / default+extend / From<BTreeMap> / dict!, Grid::default and make_empty are empty) compared component-wise and with ==; all 256 u8 codes and all 18 names plus every near-miss name; every list of <= 4 (quick 3) records over 19 records (every key set over {a,b,c,d} + mixed-case names) through the three grid constructors, and records of every width 1..72, 100, 127..129, 255..257 in six list shapes (same record twice, one tag fewer then one more, overlapping halves, an empty record in the middle, even/odd/all, narrow-wide-narrow), and lists of every length 1..72, 100, 127..129, 255..257, 1000 in four shapes (columns first seen in the last records and sorting before / between / after the known ones, columns discovered in descending order, the widest record in the middle, a rotating key set); non-trivial = distinct value / name / record list".into();
     crate::engine::quiet_panics();
     let mut l0 = Local::new();
     if let Err(m) = guarded(|| check_codes(&mut l0)) {
